@@ -387,7 +387,7 @@ func runCheck(o checkOpts) int {
 				first = d.Fails[0]
 			}
 		}
-		fmt.Printf("VIOLATION property=%s replay=%s found-by=bounded-driver %s\n", o.prop, rp, trunc(first, 200))
+		fmt.Printf("VIOLATION property=%s replay=%s found-by=bounded-driver %s\n", o.prop, rp, printable(trunc(first, 200)))
 		violations++
 		exit = 1
 	}
@@ -623,6 +623,18 @@ func (e *Engine) tryReplay(o checkOpts, ob *Obligation, path string) bool {
 	b, _ := json.MarshalIndent(rec, "", " ")
 	os.WriteFile(path, append(b, '\n'), 0o644)
 	return concrete
+}
+
+// printable keeps a line that other tools parse free of control and non-ASCII
+// bytes (driver messages may quote arbitrary metric names).
+func printable(s string) string {
+	b := []byte(s)
+	for i, c := range b {
+		if c < 0x20 || c > 0x7e {
+			b[i] = '?'
+		}
+	}
+	return string(b)
 }
 
 type ReplayResult struct {
